@@ -84,11 +84,26 @@ class _Diff(MapLoopSpec):
                  z3.Select(r.cols['quantity'], k) == z3.Select(t.cols['quantity'], k) - z3.Select(cu.cols['quantity'], k))]
 
 
-def register_loops():
+class _Quiet(MapLoop):
+    """cut loop of an EARLIER call: invariant assumed, nothing recorded"""
+
+    def havoc(self, env, names, state=()):
+        c = ctx()
+        n = len(c.obs)
+        out = super().havoc(env, names, state)
+        del c.obs[n:]
+        return out
+
+    def preserved(self, env):
+        raise heap.Abort()
+
+
+def register_loops(quiet=False):
     a, b, d = _FillCurrent(), _FillTarget(), _Diff()
-    heap.LOOPSPEC[L_FILL_CUR] = lambda lid, it, env: MapLoop(lid, it, env, a)
-    heap.LOOPSPEC[L_FILL_TGT] = lambda lid, it, env: MapLoop(lid, it, env, b)
-    heap.LOOPSPEC[L_DIFF] = lambda lid, it, env: MapLoop(lid, it, env, d)
+    cls = _Quiet if quiet else MapLoop
+    heap.LOOPSPEC[L_FILL_CUR] = lambda lid, it, env: cls(lid, it, env, a)
+    heap.LOOPSPEC[L_FILL_TGT] = lambda lid, it, env: cls(lid, it, env, b)
+    heap.LOOPSPEC[L_DIFF] = lambda lid, it, env: cls(lid, it, env, d)
 
 
 def unregister_loops():
@@ -176,6 +191,18 @@ def pcm_call(c):
     S = Stubs(c)
     dt = c.time('dt')
     pcm = PCM(S.broker, 'pid', S.uni, S.sizer, FixedWeightPortfolioOptimiser(), alpha_model=S.alpha_model)
+    # an EARLIER rebalance of the same model at the same instant, when the holdings were different (orders filled in
+    # between), must not influence this one
+    held_now = S.held
+    S.held = num_map(c, 'holdings_at_an_earlier_call', fields=REPORT, gen=lambda r: float(r.choice([-50, 10, 100])), pgen=lambda r: r.random() < 0.5)
+    if c.mode == 'sym':
+        register_loops(quiet=True)
+    try:
+        pcm(dt, stats={'target_allocations': []})
+    finally:
+        unregister_loops()
+    S.held = held_now
+    del S.sizer_calls[:], S.alpha_calls[:], S.broker_calls[:], S.uni.queries[:]
     stats = {'target_allocations': []}
     if c.mode == 'sym':
         register_loops()
